@@ -14,8 +14,14 @@ import (
 // InitMiddleware, InitService and InitExecutors must have run, and AccountDBManagerInstance must hold a
 // latest state (SetLatestStateDB) whose Height is the height the verification is to use.
 
+// one executor (one logger: log.GetLoggerByIndex with a non-empty index builds a new logger on every call)
+var verifC07Exec *GameExecutor
+
 func verifC07Executor() *GameExecutor {
-	return &GameExecutor{logger: log.GetLoggerByIndex(log.GameExecutorLogConfig, "verif")}
+	if verifC07Exec == nil {
+		verifC07Exec = &GameExecutor{logger: log.GetLoggerByIndex(log.GameExecutorLogConfig, "verif")}
+	}
+	return verifC07Exec
 }
 
 // VerifC07RunWrite is GameExecutor.runWrite, the handler AccountDBManager calls for every queued
